@@ -731,3 +731,14 @@ def with_new_helpers(repo, f):
                         out.append(g)
                         work.append(g)
     return out
+
+
+def facts_at_loops(fn_node):
+    """{id(for statement): Facts} : must-facts on first entry to the head of every `for` loop"""
+    cfg = CFG(fn_node)
+    st = cfg.must_facts()
+    out = {}
+    for n in cfg.nodes:
+        if n.kind == 'iter':
+            out[id(n.ast)] = st.get(n.id)
+    return out
